@@ -170,9 +170,8 @@ theorem updateTxMeta_inv (now : Time) (id : Nat) (m : Meta) (w : Option Time) (d
   unfold updateTxMeta at he
   split at he
   · cases he
-  · split at he
-    · cases he; exact Or.inl rfl
-    · cases he; refine Or.inr ⟨_, ?_, ?_, rfl⟩ <;> intro x <;> rfl
+  · cases he
+    refine Or.inr ⟨_, ?_, ?_, rfl⟩ <;> intro x <;> split <;> rfl
 
 theorem deleteTxMeta_inv (now : Time) (id : Nat) (k : String) (w : Option Time) (d : Db) (sq : Seqs) (h : Inv d sq) :
     ∀ r d', deleteTxMeta now id k w d = .ok (r, d') → Inv d' sq := by
@@ -181,9 +180,8 @@ theorem deleteTxMeta_inv (now : Time) (id : Nat) (k : String) (w : Option Time) 
   unfold deleteTxMeta at he
   split at he
   · cases he
-  · split at he
-    · cases he; refine Or.inr ⟨_, ?_, ?_, rfl⟩ <;> intro x <;> rfl
-    · cases he; exact Or.inl rfl
+  · cases he
+    refine Or.inr ⟨_, ?_, ?_, rfl⟩ <;> intro x <;> split <;> rfl
 
 /-- Every call of the write path preserves the invariant, also when it fails. -/
 theorem exec_inv (now : Time) (c : Call) (d : Db) (sq : Seqs) (hf : c.Fresh) (h : Inv d sq) :
